@@ -1,18 +1,17 @@
 import Driver
 open Lerax.Proto Lerax.Driver Lean
 
+/-- every driver op, by name; each `Driver/X.lean` contributes its own list -/
+def allOps : List (String × (V → R V)) :=
+  [("ping", fun a => pure a)]
+  ++ gaeOps
+  ++ tabularOps
+  ++ wrappersOps
+
 def dispatch (op : String) (a : V) : R V :=
-  match op with
-  | "ping" => pure a
-  | "gae" => gaeOp a
-  | "tab_step" => tabStepOp a
-  | "tab_reset" => tabResetOp a
-  | "tab_components" => tabComponentsOp a
-  | "step_ok" => stepOkOp a
-  | "wrap_expect" => wrapExpectOp a
-  | "rescale" => rescaleOp a
-  | "clip" => clipOp a
-  | _ => throw s!"unknown op {op}"
+  match allOps.find? (·.1 == op) with
+  | some (_, f) => f a
+  | none => throw s!"unknown op {op}"
 
 def handleLine (line : String) : String :=
   let res : R (V × V) := do
